@@ -372,6 +372,18 @@ def ws_dispatch_guard(chk, prog, cfg):
                     odd.append((lab, core.short(str(gd))[:80]))
             chk.ob("R5.ws_dispatch", b.path, "the WebSocket lookup is entered for every parsed `Upgrade: websocket` request (no condition on the registered routes)", not odd,
                    f"the dispatch also depends on {odd}: an upgrade request for a WebSocket route of a host sub-app is answered as ordinary HTTP", where=b.where(blk), cfg=cfg)
+            # ... and on no header other than Upgrade (the two runtimes must take the same requests for upgrades: a gate on the exact value of
+            # `Connection` in one of them turns `Connection: keep-alive, Upgrade` requests into ordinary HTTP there)
+            hdrs = set()
+            for s_, lab, gd, info in core.guards_dominating(prog, b, blk):
+                for c in (core.desc_calls(gd) if isinstance(gd, tuple) else []):
+                    if core.re.search(r"headers::Headers::(get|get_all|contains)$", c[1]) and len(c[2]) > 1:
+                        a = c[2][1]
+                        while isinstance(a, tuple) and a and a[0] == "call" and a[2]:
+                            a = a[2][0]
+                        hdrs.add(a[2] if isinstance(a, tuple) and a and a[0] == "variant" else str(a[1]) if isinstance(a, tuple) and a and a[0] == "lit" else "?")
+            chk.ob("R5.ws_dispatch", b.path, "which requests count as WebSocket upgrades is decided by the Upgrade header alone", hdrs <= {"Upgrade", "upgrade"} and bool(hdrs),
+                   f"the dispatch is gated on the headers {sorted(hdrs)}", where=b.where(blk), cfg=cfg)
     chk.floor(f"WebSocket dispatch sites in the connection loop [{cfg}]", n, 1)
 
 
